@@ -138,3 +138,63 @@
             m.assume_init()
         }
     }
+
+    // ---------------------------------------------------------------- C16.l2.read: the read loop over uncompressed chunks
+    /// Stream: 0x01 (uncompressed, dictionary reset) size 3 | a b c | 0x02 (uncompressed) size 1 | d | 0x00 | trailing bytes.
+    /// For a first read of K bytes and then reads of 4: the reader returns a b c d in order, reports the end after the
+    /// terminator, has then consumed EXACTLY the 12 bytes of the LZMA2 stream (nothing of what follows), and later reads
+    /// return Ok(0) without touching the source. (LZMA chunks need the decoder: by contract elsewhere.)
+    fn l2_read_uncompressed<const K: usize>() {
+        let p: [u8; 4] = vk::any();
+        let t: [u8; 2] = vk::any();
+        let stream: [u8; 14] = [0x01, 0x00, 0x02, p[0], p[1], p[2], 0x02, 0x00, 0x00, p[3], 0x00, 0x99, t[0], t[1]];
+        let mut r = core::mem::ManuallyDrop::new(LZMA2Reader::new(vk::Src::<14>::new(stream, 14), 4096, None));
+        let mut out = [0u8; 8];
+        let mut got = 0usize;
+        match r.read(&mut out[..K]) { Ok(n) => { assert!(n >= 1 && n <= K); got += n; } Err(_) => assert!(false) }
+        let mut rounds = 0;
+        while rounds < 4 && got < 4 {
+            match r.read(&mut out[got..got + 4]) { Ok(n) => { assert!(n >= 1, "end of data reported before the terminator"); got += n; } Err(_) => assert!(false) }
+            rounds += 1;
+        }
+        assert!(got == 4 && out[0] == p[0] && out[1] == p[1] && out[2] == p[2] && out[3] == p[3]);
+        assert!(matches!(r.read(&mut out[4..8]), Ok(0)));
+        assert!(r.end_reached && r.inner.pos == 11, "the reader must stop exactly after the 0x00 terminator");
+        assert!(matches!(r.read(&mut out[4..8]), Ok(0)) && r.inner.pos == 11);
+        assert!(matches!(r.read(&mut out[..0]), Ok(0)));
+    }
+    #[kani::proof]
+    #[kani::unwind(8)]
+    //@ERR
+    fn c16_l2_read_uncompressed_k1() { l2_read_uncompressed::<1>(); }
+    #[kani::proof]
+    #[kani::unwind(8)]
+    //@ERR
+    fn c16_l2_read_uncompressed_k3() { l2_read_uncompressed::<3>(); }
+    #[kani::proof]
+    #[kani::unwind(8)]
+    //@ERR
+    fn c16_l2_read_uncompressed_k4() { l2_read_uncompressed::<4>(); }
+
+    /// C04.lzma.struct / C05: a structural error (first chunk 0x02 = no dictionary reset at the start of the stream) or a
+    /// truncated chunk is returned with its kind and STAYS returned: later reads fail with the same kind, never yield data.
+    fn l2_error_is_sticky<const TRUNC: bool>() {
+        let p: [u8; 2] = vk::any();
+        let stream: [u8; 5] = if TRUNC { [0x01, 0x00, 0x02, p[0], p[1]] } else { [0x02, 0x00, 0x01, p[0], p[1]] };
+        let mut r = core::mem::ManuallyDrop::new(LZMA2Reader::new(vk::Src::<5>::new(stream, 5), 4096, None));
+        let mut out = [0u8; 4];
+        let r1 = r.read(&mut out);
+        assert!(r1.is_err(), "damaged stream accepted");
+        if let Err(e) = &r1 { assert!(vk::kind_of(e) == if TRUNC { vk::Kind::Eof } else { vk::Kind::InvalidInput }); }
+        let r2 = r.read(&mut out);
+        assert!(r2.is_err(), "data returned after an error");
+        if let Err(e) = &r2 { assert!(vk::kind_of(e) == if TRUNC { vk::Kind::Eof } else { vk::Kind::InvalidInput }); }
+    }
+    #[kani::proof]
+    #[kani::unwind(8)]
+    //@ERR
+    fn c04_l2_error_is_sticky_structural() { l2_error_is_sticky::<false>(); }
+    #[kani::proof]
+    #[kani::unwind(8)]
+    //@ERR
+    fn c04_l2_error_is_sticky_truncated() { l2_error_is_sticky::<true>(); }
